@@ -25,10 +25,23 @@ Ltac trig_ring := match goal with
   | H1 : _ * _ = 1 - _ |- _ => first [ring [H1] | field [H1] | (field_simplify_eq; ring [H1])]
   end.
 Ltac solve_entry := first [ field | ring | trig_ring | lazymatch goal with |- ?a = ?a => reflexivity end ].
+Ltac pc_zero := intros; autounfold with gen; ops_R; trig_abs; repeat split;
+  (let H := fresh "H" in intro H;
+   match type of H with ?b < ?a =>
+     let E := fresh "E" in assert (E : a = 0) by solve_entry; rewrite E in H; lra end).
 Ltac law := intros; unfold halves_eq; autounfold with gen; ops_R; cbn [firstn skipn]; trig_abs; list_eq solve_entry.
 """
+NOPC = ("roundtrip_complex", "roundtrip_natural", "trace_det", "roundtrip_jones", "basis_history")
 def lawlem(name, args, half):
+    if not name.startswith(NOPC):
+        return lawlem0(name, args, half) + "\n" + pclem(name, args)
+    return lawlem0(name, args, half)
+def lawlem0(name, args, half):
     return "Lemma law_%s %s :\n  halves_eq %d (%s (OO:=ROps) %s).\nProof. law. Qed.\n" % (name, args, half, name, args)
+def pclem(name, args):
+    # the only branch on these paths is coherency()'s sanity test "imaginary part negligible":
+    # the imaginary part vanishes identically, so the path condition holds for every input
+    return "Lemma pc_%s %s : %s_pc (OO:=ROps) %s.\nProof. pc_zero. Qed.\n" % (name, args, name, args)
 def write(fname, doc, body):
     open(os.path.join(OUT, fname), "w").write(HDR % (fname, doc) + "\n" + "\n".join(body))
 
@@ -63,12 +76,14 @@ for bs in ("lin", "circ"):
 # Mueller(J) in the linear basis is the trace formula
 b = ["""Definition mueller_spec (j : M2) (r c : nat) : R :=
   cre (cscale (/2) (m2trace (m2mul (sigma c) (m2mul (m2herm j) (m2mul (sigma r) j))))).
+Lemma pc_mueller_lin %s : mueller_lin_pc (OO:=ROps) %s.
+Proof. pc_zero. Qed.
 Lemma tie_mueller_lin %s :
   mueller_lin (OO:=ROps) %s = grid16 (mueller_spec (M2of %s)).
 Proof.
   intros; autounfold with gen; ops_R; unfold grid16, idx4, mueller_spec, M2of, sigma; spec_cbv; list_eq solve_entry.
 Qed.
-""" % (J("j"), J("j"), J("j"))]
+""" % (J("j"), J("j"), J("j"), J("j"), J("j"))]
 write("Tie_C02_mueller_spec.v", "Mueller(J)[r][c] = 1/2 tr(sigma_c J^dagger sigma_r J) in the linear basis.", b)
 
 # basis matrices
